@@ -22,7 +22,7 @@ RULE = ("Hypothesis trees: depth <= 4 (6 in thorough), fan-out <= 4 (wide trees:
         "makes the trees unequal in both directions; deepcopy, pickle and serialise-and-parse copies are equal both ways and "
         "serialise identically. Non-trivial: >= 3 components and a repeated subcomponent name; distinct by hash.")
 ASSUMPTIONS = ["parameter-only differences are not asserted either way", "generated texts contain no backslash (RC-B would change them on serialise-and-parse; C01/C07 own that)"]
-REQUIRED_CLASSES = ["custom-zone", "repeated-sub-name", "unknown-component", "perturb:kind", "perturb:value", "perturb:add-sub", "perturb:remove-sub", "perturb:dup-sub",
+REQUIRED_CLASSES = ["custom-zone", "repeated-sub-name", "unknown-component", "perturb:kind", "perturb:value", "perturb:zone", "perturb:add-sub", "perturb:remove-sub", "perturb:dup-sub",
                     "perturb:swap-mult", "root:VCALENDAR", "zoned-value"]
 
 
@@ -111,6 +111,19 @@ def change_value(spec):
     return s
 
 
+def _rezone(spec):
+    k = spec["k"]
+    if k == "zoned":
+        return dict(spec, tz="Asia/Tokyo" if spec["tz"] != "Asia/Tokyo" else "Europe/Berlin")
+    if k == "naive":
+        return {"k": "zoned", "v": spec["v"], "tz": "Asia/Tokyo"}
+    if k == "dates" and spec["v"] and spec["v"][0]["k"] in ("zoned", "naive"):
+        return dict(spec, v=[_rezone(d) for d in spec["v"]])
+    if k == "period" and spec["start"]["k"] in ("zoned", "naive") and "dur" in spec:
+        return dict(spec, start=_rezone(spec["start"]))
+    return None
+
+
 OTHER_KIND = {"VEVENT": "VTODO", "VTODO": "VEVENT", "VJOURNAL": "VEVENT", "VFREEBUSY": "VJOURNAL", "VTIMEZONE": "VEVENT", "STANDARD": "DAYLIGHT",
               "DAYLIGHT": "STANDARD", "VALARM": "VEVENT", "VCALENDAR": "VEVENT"}
 
@@ -130,6 +143,16 @@ def perturb(tree, pert):
         def f(t):
             ps = [list(p) for p in t["p"]]
             ps[j][1] = change_value(ps[j][1])
+            return dict(t, p=ps)
+        return replace_at(tree, path, f)
+    if kind == "zone":      # same wall-clock fields, another zone (or floating -> zoned): a different value
+        cands = [j for j, p in enumerate(node["p"]) if _rezone(p[1]) is not None]
+        if not cands:
+            return None
+        j = cands[pert["idx"] % len(cands)]
+        def f(t):
+            ps = [list(p) for p in t["p"]]
+            ps[j][1] = _rezone(ps[j][1])
             return dict(t, p=ps)
         return replace_at(tree, path, f)
     if kind == "add-sub":
@@ -159,7 +182,7 @@ def judge(case):
     if case.get("kind") == "custom-zone":
         return judge_custom_zone(case, provider)
     fails = []
-    for section in (_traversal, _equality, _non_components, _perturbation, _copies):
+    for section in (_traversal, _traversal_parsed, _equality, _non_components, _perturbation, _copies):
         try:
             section(case, provider)
         except Bad as b:
@@ -201,6 +224,27 @@ def _traversal(case, provider):
             got = getattr(a, attr)
             if len(got) != len(want) or any(x is not y for x, y in zip(got, want)):
                 raise Bad("C20.accessors", f"accessor-{attr}-differs", f"{len(got)} vs {len(want)}")
+
+
+def _traversal_parsed(case, provider):
+    """the same tree read from text whose component names are written in lower / mixed case"""
+    from vlib.model import ical_text as M
+    keys = case.get("perm") or [0]
+
+    def recase(t, off=0):
+        nm = [t["c"].lower(), t["c"].title(), t["c"].upper(), t["c"]][keys[off % len(keys)] % 4]
+        return {"c": nm, "p": [p for p in t["p"] if p[1]["k"] != "text" or "\\" not in p[1]["v"]], "s": [recase(s, off + 1 + i) for i, s in enumerate(t["s"])]}
+    tree = recase(case["tree"])
+    root = Component.from_ical(M.render(tree))
+    names = [n["c"].upper() for n in T.preorder(tree)]
+    w = root.walk()
+    if [c.name.upper() for c in w] != names:
+        raise Bad("C20.walk", "parsed-walk-not-preorder", f"{[c.name for c in w]!r} vs {names!r}")
+    for nm in sorted(set(names)):
+        for variant in (nm, nm.lower(), nm.title()):
+            got = root.walk(variant)
+            if len(got) != names.count(nm):
+                raise Bad("C20.walk", "parsed-walk-by-name-differs", f"walk({variant!r}) -> {len(got)}, expected {names.count(nm)} (names as parsed: {sorted({c.name for c in w})!r})")
 
 
 def _equality(case, provider):
@@ -425,7 +469,7 @@ def _hyp(depth, fanout=4):
             "provider": st.sampled_from(["zoneinfo", "pytz"]),
             "tree": st.one_of(T.s_tree(depth, fanout, True), T.s_tree(depth, fanout, True, root="VCALENDAR")).map(_no_tzid_in_vtimezone),
             "perm": st.lists(st.integers(0, 5), min_size=1, max_size=6),
-            "perturb": st.fixed_dictionaries({"kind": st.sampled_from(["kind", "value", "value", "add-sub", "remove-sub", "dup-sub", "swap-mult"]),
+            "perturb": st.fixed_dictionaries({"kind": st.sampled_from(["kind", "value", "value", "zone", "zone", "add-sub", "remove-sub", "dup-sub", "swap-mult"]),
                                               "node": st.integers(0, 30), "idx": st.integers(0, 10)}),
         })
     return mk
